@@ -18,7 +18,7 @@ Import ListNotations.
 Open Scope Q_scope.
 
 Ltac conj := repeat match goal with |- _ /\ _ => split end.
-Ltac qc := vm_compute; first [reflexivity | congruence | discriminate].
+Ltac qc := vm_compute; first [reflexivity | congruence | discriminate | lia].
 Ltac unf := unfold draw_range, draw_in, mem_oc, mem_co, balanced; cbn [lo hi].
 
 Definition t_ex : utable := [(3#2, 10%Z); (-(1#2), 11%Z); (0, 12%Z); (1#2, 13%Z); (-(3#2), 14%Z)].
@@ -91,7 +91,7 @@ Proof. unf. conj; qc. Qed.
 
 (** The selected unit has a strictly negative rate (and is the unit inserted with that rate),
     whenever the deciding draw is in (0,1] (inside first, ratio) resp. [0,1) (outside first). *)
-Theorem never_nonnegative : forall (s : scheme) (t : utable) (a : nat) (u1 u2 : Q),
+Theorem never_nonnegative : forall (s : scheme) (u1 u2 : Q) (t : utable) (a : nat),
   (a < length t)%nat -> 0 < rate_at a t -> balanced t -> draw_range s u1 u2 ->
   exists k, (k < length (negs t))%nat /\
             l_run s u1 u2 (activate a t) = LOk k (nth k (neg_ids t) 0%Z) /\
